@@ -157,7 +157,7 @@ theorem nodeStep_decT {env a nd child r} (h : nodeStep env a nd child = some r) 
 
 theorem CE.mass {env a nd rnd x x'} (h : CE env a nd rnd x x') :
     rest x' = rest x ∧ ((a = .take ∧ mass x' ≤ mass x + 12) ∨ (a ≠ .take ∧ mass x' ≤ mass x)) := by
-  rcases h with ⟨h, hne⟩ | ⟨ha, h, _⟩ | ⟨ha, h, ho, _⟩ | ⟨ha, h⟩ | ⟨ha, h, _⟩
+  rcases h with ⟨h, hne, _⟩ | ⟨ha, h, _⟩ | ⟨ha, h, ho, _⟩ | ⟨ha, h⟩ | ⟨ha, h, _⟩
   · subst h
     refine ⟨rfl, ?_⟩
     by_cases hat : a = .take
